@@ -558,11 +558,11 @@ func (c *Ctx) Bin(op Op, a, b *Term) *Term {
 		ba, ca := c.baseOff(a)
 		bb, cb := c.baseOff(b)
 		switch {
-		case op == OpBvAdd && ba != nil && bb == nil && a.Op == OpBvAdd:
+		case op == OpBvAdd && ba != nil && bb == nil && ba != a:
 			return c.Bin(OpBvAdd, ba, c.BVBig(new(big.Int).Add(ca, cb), w))
-		case op == OpBvAdd && ba == nil && bb != nil && b.Op == OpBvAdd:
+		case op == OpBvAdd && ba == nil && bb != nil && bb != b:
 			return c.Bin(OpBvAdd, bb, c.BVBig(new(big.Int).Add(ca, cb), w))
-		case op == OpBvSub && bb == nil && ba != nil:
+		case op == OpBvSub && bb == nil && ba != nil && (ba != a || cb.Sign() != 0):
 			return c.Bin(OpBvAdd, ba, c.BVBig(new(big.Int).Sub(ca, cb), w))
 		case op == OpBvSub && ba != nil && ba == bb:
 			return c.BVBig(new(big.Int).Sub(ca, cb), w)
